@@ -1481,31 +1481,48 @@ fn is_fragment_name(name: &str) -> bool {
         .unwrap_or_default()
 }
 
+/// Does this entry of the options object define the option `name`, however it is spelled
+/// (`name: v`, `'name': v`, `['name']: v`, shorthand, method or getter)?
+fn is_option_named(prop: &PropOrSpread, name: &str) -> bool {
+    let PropOrSpread::Prop(prop) = prop else {
+        return false;
+    };
+    let key = match &**prop {
+        Prop::Shorthand(ident) => return ident.sym == name,
+        Prop::KeyValue(KeyValueProp { key, .. })
+        | Prop::Getter(GetterProp { key, .. })
+        | Prop::Method(MethodProp { key, .. }) => key,
+        _ => return false,
+    };
+    match key {
+        PropName::Ident(ident) => ident.sym == name,
+        PropName::Str(str) => str.value == name,
+        PropName::Computed(ComputedPropName { expr, .. }) => {
+            matches!(&**expr, Expr::Lit(Lit::Str(str)) if str.value == name)
+        }
+        _ => false,
+    }
+}
+
 fn inject_define_component_option(call: &mut CallExpr, name: &'static str, value: Expr) {
-    let options = call.args.get_mut(1);
-    if options
-        .as_ref()
-        .and_then(|options| options.spread)
-        .is_some()
-    {
+    // a spread among the first two arguments: the argument list is left alone
+    if call.args.iter().take(2).any(|arg| arg.spread.is_some()) {
         return;
     }
 
+    let options = call.args.get_mut(1);
     match options.map(|options| &mut *options.expr) {
         Some(Expr::Object(object)) => {
-            if !object.props.iter().any(|prop| {
-                prop.as_prop()
-                    .and_then(|prop| prop.as_key_value())
-                    .and_then(|key_value| key_value.key.as_ident())
-                    .map(|ident| ident.sym == name)
-                    .unwrap_or_default()
-            }) {
-                object
-                    .props
-                    .push(PropOrSpread::Prop(Box::new(Prop::KeyValue(KeyValueProp {
-                        key: PropName::Ident(quote_ident!(name)),
-                        value: Box::new(value),
-                    }))));
+            if !object.props.iter().any(|prop| is_option_named(prop, name)) {
+                let prop = PropOrSpread::Prop(Box::new(Prop::KeyValue(KeyValueProp {
+                    key: PropName::Ident(quote_ident!(name)),
+                    value: Box::new(value),
+                })));
+                // options the user spreads into the object must win over the injected one
+                match object.props.iter().position(|prop| prop.is_spread()) {
+                    Some(index) => object.props.insert(index, prop),
+                    None => object.props.push(prop),
+                }
             }
         }
         Some(..) => {
